@@ -298,6 +298,8 @@ def jobs(tier):
     for nf in ((), ('gain',), ('delta_p',), ('tilt',), ('gain', 'delta_p', 'tilt')):
         js.append(dict(name=f'H17b:edfa_export_reload:none={"+".join(nf) or "-"}', fn='h_edfa_export', params=dict(none_fields=nf), cost=10))
     js.append(dict(name='H17b:fiber_export_reload', fn='h_fiber_export', cost=10))
+    js.append(dict(name='H17b:split_fibre_exports_operator_pmd_coef', module='harness.c08', fn='h_split',
+                   params=dict(max_km=150, padding=10, fibre='operator_pmd_coef'), cost=30, witness_every=1))
     js.append(dict(name='H17b:raman_fiber_export_reload', fn='h_raman_fiber_export', cost=10))
     for pol in ('pch', 'psd', 'psw'):
         js.append(dict(name=f'H17b:roadm_export_reload:{pol}', fn='h_roadm_export', params=dict(policy=pol), cost=10))
